@@ -352,6 +352,39 @@ func chainSyncSetup(s *rt.Sim, tier string) func() {
 		if maxOutstanding > 1 {
 			rt.Hit("cs.pipelined")
 		}
+		// arm (own stream): after a sync that the application cancelled with ErrStopSyncProcess,
+		// and once everything requested has been answered, it syncs again on the same client. The
+		// server goes on with its history; every remaining update must arrive, in order
+		if stopAt >= 0 && len(cbs) < len(hist) && reqOnWire() == len(cbs) && rt.Choose("cfg.x", 2) == 1 {
+			rt.Hit("cs.resync-after-cancel")
+			stopAt = -1
+			already := len(cbs)
+			if err := cConn.ChainSync().Client.Sync([]pcommon.Point{samplePoint(0)}); err != nil {
+				rt.Violate("C21/resync-failed", "%s: a second Sync after a cancelled one returned %v (client errors %v, server errors %v)", desc, err, cw.errs, sw.errs)
+				return
+			}
+			for i := 0; i < 9000 && len(cbs) < len(hist) && len(cw.errs) == 0 && len(sw.errs) == 0; i++ {
+				sleep(200 * time.Millisecond)
+			}
+			if pair.A.Deadline+pair.B.Deadline > 0 {
+				rt.Hit("cs.inconclusive-read-deadline")
+				return
+			}
+			if len(cw.errs)+len(sw.errs) > 0 {
+				rt.Violate("C21/error-in-conforming-sync", "%s: after re-syncing: client errors %v, server errors %v after %d callbacks", desc, cw.errs, sw.errs, len(cbs))
+				return
+			}
+			if len(cbs) < len(hist) {
+				rt.Violate("C21/sync-stalls-after-resync", "%s: a second Sync after the cancelled one returned nil; %d callbacks had been made before it, %d after 30 more simulated minutes, the server has %d updates", desc, already, len(cbs), len(hist))
+				return
+			}
+			for i, cb := range cbs {
+				if i >= len(hist) || cb.kind != hist[i].kind || cb.tip.BlockNumber != hist[i].tip.BlockNumber {
+					rt.Violate("C21/callback-order", "%s: after re-syncing, callback #%d is not the server's update #%d", desc, i, i)
+					return
+				}
+			}
+		}
 		// Stop
 		outstandingAtStop := reqOnWire() - len(cbs)
 		stopRet := false
